@@ -326,3 +326,26 @@ Fixpoint trace (cfg : config) (st : state) (ops : list op) : list (op * obs) :=
    maxObservedAddrsPerListenAddr of what AddrsFor returns, in order *)
 Definition host_observed_for (k : nat) (cfg : config) (st : state) (la : laddr) : list Z :=
   firstn k (addrs_for cfg st la).
+
+(* ---- host level: p2p/host/basic/addrs_manager.go ------------------------------
+   updateAddrs recomputes localAddrs = interface/listen addresses ++ NAT
+   mappings ++ (for every listen address la) AddrsFor(la)[:3] from the observed
+   address manager's CURRENT answer, and stores it as the snapshot currentAddrs
+   on every update.  The host's views are functions of that snapshot:
+     DirectAddrs()    = snapshot.localAddrs
+     Addrs()          = AddrsFactory(dialable(localAddrs)): with autonat-v1
+                        reachability Private and relay addresses present the
+                        public addresses are dropped; the factory may hide more
+     HolePunchAddrs() = public addresses of AddrsFactory(DirectAddrs()) ++ manager.Addrs(1)
+   For one observed address x that is not one of the host's own interface /
+   NAT addresses, membership in the three views is therefore a function of:
+   is x in the manager's current AddrsFor answers (inM0), in its current
+   Addrs(1) answer (inM1), is x public, does the AddrsFactory hide x, and is
+   the host private-with-relay. *)
+Record hostx := mkHX { hx_pub : bool; hx_hidden : bool }.
+Record hview := mkHV { hv_direct : bool; hv_addrs : bool; hv_hole : bool }.
+
+Definition host_view (private_relay : bool) (x : hostx) (inM0 inM1 : bool) : hview :=
+  mkHV inM0
+       (inM0 && negb (hx_hidden x) && negb (private_relay && hx_pub x))
+       (hx_pub x && ((inM0 && negb (hx_hidden x)) || inM1)).
